@@ -936,21 +936,21 @@ static bool x_rest(coefficient_t factor, dimension_t dim) {{ bool ok = true; for
 static bool x_nowrap(coefficient_t factor) {{ bool ok = true; for (unsigned k = 0; k < KS; k++) ok = ok && (unsigned long)g_stored[k].coef * (unsigned long)factor <= 4294967295ul; return ok; }}
 """
     con = """
-__CPROVER_requires(g_nstored <= KS && g_asc_calls == 0 && modulus >= 2 && modulus <= 65521 && factor >= 1 && factor < modulus)
+__CPROVER_requires(g_nstored <= KS && g_asc_calls == 0 && modulus >= 2 && modulus <= 65521 && @2@ >= 1 && @2@ < modulus)
 __CPROVER_requires(g_stored[0].coef < modulus && g_stored[1].coef < modulus && g_stored[2].coef < modulus)
-__CPROVER_ensures(g_asc_calls == g_nstored + 1 && g_asc_id[0] == g_col.index && g_asc_coef[0] == factor && g_asc_dim[0] == dim)
-__CPROVER_ensures(x_rest(factor, dim))
-__CPROVER_ensures(x_nowrap(factor))
+__CPROVER_ensures(g_asc_calls == g_nstored + 1 && g_asc_id[0] == g_col.index && g_asc_coef[0] == @2@ && g_asc_dim[0] == @3@)
+__CPROVER_ensures(x_rest(@2@, @3@))
+__CPROVER_ensures(x_nowrap(@2@))
 __CPROVER_assigns(g_asc_calls, __CPROVER_object_whole(g_asc_id), __CPROVER_object_whole(g_asc_coef), __CPROVER_object_whole(g_asc_dim))
 """
-    fn = Fn(RP, r"void add_coboundary\(Compressed_sparse_matrix& reduction_matrix,\s*const std::vector<diameter_simplex_t>& columns_to_reduce,\s*const size_t index_column_to_add, const coefficient_t factor,\s*const dimension_t dim, Column& working_reduction_column,\s*Column& working_coboundary\)",
+    fn = Fn(RP, r"void add_coboundary\(Compressed_sparse_matrix& \w+,\s*const std::vector<diameter_simplex_t>& \w+,\s*const size_t \w+, const coefficient_t \w+,\s*const dimension_t \w+, Column& \w+,\s*Column& \w+\)",
             "add_coboundary", con,
-            sig_subs=[(r"\(Compressed_sparse_matrix& reduction_matrix,.*\)$", "(size_t index_column_to_add, coefficient_t factor, dimension_t dim)")],
-            subs=[(r"\bdiameter_entry_t\b", "dentry"), (r"filt\.make_diameter_entry\(columns_to_reduce\[index_column_to_add\], (\w+)\)", r"make_entry(g_col, \1)"),
-                  (r"add_simplex_coboundary\((\w+), (\w+), working_reduction_column, working_coboundary\);", r"asc_stub(\1, \2);"),
-                  (r"for \(dentry (\w+) : reduction_matrix\.subrange\(index_column_to_add\)\) \{", r"for (unsigned vp_k = 0; vp_k < g_nstored; vp_k++) { dentry \1 = g_stored[vp_k];"),
-                  (r"filt\.set_coefficient\((\w+), filt\.get_coefficient\(\1\) \* factor % modulus\);", r"\1.coef = \1.coef * factor % modulus;")],
-            canary=(r"\* factor % modulus", "* factor"))
+            sig_subs=[(r"Compressed_sparse_matrix& \w+,\s*const std::vector<diameter_simplex_t>& \w+,\s*", ""), (r",\s*Column& \w+,\s*Column& \w+", ""), (r"\bconst (size_t|coefficient_t|dimension_t)", r"\1")],
+            subs=[(r"\bdiameter_entry_t\b", "dentry"), (r"filt\.make_diameter_entry\(\w+\[\w+\], (\w+)\)", r"make_entry(g_col, \1)"),
+                  (r"add_simplex_coboundary\((\w+), (\w+), \w+, \w+\);", r"asc_stub(\1, \2);"),
+                  (r"for \(dentry (\w+) : \w+\.subrange\(\w+\)\) \{", r"for (unsigned vp_k = 0; vp_k < g_nstored; vp_k++) { dentry \1 = g_stored[vp_k];"),
+                  (r"filt\.set_coefficient\((\w+), filt\.get_coefficient\(\1\) \* (\w+) % modulus\);", r"\1.coef = \1.coef * \2 % modulus;")],
+            canary=(r"\* (\w+) % modulus", r"* \1"))
     U.append(Unit("reduction.add_coboundary", "C11", [fn], enforce="add_coboundary", globals_=G, unwind=KS + 2, route="B",
                   bound=f"at most {KS} simplices stored for the added column; moduli up to 65521 (the product of two coefficients fits 32 bits)", inputs=["in_i", "in_f", "in_dim", "modulus", "g_nstored"],
                   replay=replay_by_native_search,
